@@ -151,8 +151,15 @@ Proof. intros H. apply ies_In in H as [it [L _]]. unfold mem. now rewrite L. Qed
 
 Definition ilek (e : str * str) : item := index_lek (t_ks t) (ix_ks ix) (get_item t (snd e)).
 
+(* the position an exclusive start key names in this index, when it carries both keys *)
+Definition esk_pos (esk : item) : str * str :=
+  (parse_start_key (ix_ks ix) (t_defs t) esk, parse_start_key (t_ks t) (t_defs t) esk).
+Definition esk_positioned (esk : item) : Prop :=
+  has_start_key (t_ks t) (t_defs t) esk = true /\ fst (esk_pos esk) <> [].
+
 Definition irest_for (esk : item) (rest : list (str * str)) : Prop :=
-  (esk = [] /\ rest = ies) \/ exists a x b, ies = a ++ x :: b /\ esk = ilek x /\ rest = b.
+  (esk = [] /\ rest = ies) \/ (exists a x b, ies = a ++ x :: b /\ esk = ilek x /\ rest = b) \/
+  (esk_positioned esk /\ rest = snd (gsplit (aft2b (q_forward q)) (esk_pos esk) ies)).
 
 Definition ipage (L : nat) (esk : item) := search_data lang_match c t (with_page q L esk).
 
@@ -194,7 +201,7 @@ Proof.
   set (hp := match sik with [] => false | _ => true end).
   set (hs := has_start_key (t_ks t) (t_defs t) esk).
   assert (rest = grest q ies hs sik spk /\ (hs = true -> hp = true)) as [Hrest Hhp].
-  { destruct Hr as [[-> ->]|[a [x [b [Hes [-> ->]]]]]].
+  { destruct Hr as [[-> ->]|[[a [x [b [Hes [-> ->]]]]]|[[Hh Hp] ->]]].
     - subst hs. cbn. split; [reflexivity|discriminate].
     - assert (In x ies) as Hin by (rewrite Hes; apply in_or_app; right; now left).
       destruct (ilek_resolves x Hin) as [Hne [Hh [Hp [Hi Hix]]]].
@@ -202,7 +209,10 @@ Proof.
       destruct (fst x) as [|c0 s0] eqn:Ef; [congruence|]. split; [|reflexivity].
       unfold grest. rewrite <- Ef. replace (fst x, snd x) with x by (destruct x; reflexivity).
       pose proof ies_sorted as S. rewrite Hes in *.
-      rewrite (gsplit_member _ (aft2b_irrefl _) (aft2b_asym _)) by exact S. reflexivity. }
+      rewrite (gsplit_member _ (aft2b_irrefl _) (aft2b_asym _)) by exact S. reflexivity.
+    - subst hs spk sik hp. rewrite Hh. unfold esk_pos in *. cbn [fst snd] in *.
+      destruct (parse_start_key (ix_ks ix) (t_defs t) esk) as [|c0 s0] eqn:Ei; [congruence|].
+      split; reflexivity. }
   pose proof (gloop_page lang_match c t q ev ies Hcond ies_sorted ies_stored Hev L esk hs hp sik spk HL Hhp) as P.
   rewrite <- Hrest in P.
   destruct (gpage (ecounts ev) L 0 rest) as [[p u] b] eqn:PK.
@@ -236,9 +246,27 @@ Proof.
   intros HL. unfold ipages.
   apply (gpages_complete (ecounts ev) ies (ematched ev) (eitem t) ilek ipage irest_for); auto.
   - left. auto.
-  - intros a x b Hes. right. exists a, x, b. auto.
+  - intros a x b Hes. right. left. exists a, x, b. auto.
   - intros x Hin. now destruct (ilek_resolves x Hin).
   - intros L0 esk rest HL0 Hr Hs. apply ipage_spec; auto.
+Qed.
+
+(* resuming through the index from ANY start key that carries the index key and the table key - whether or not the
+   item it names is still stored - returns every matching entry positioned after it, and only those *)
+Theorem index_resume_complete L esk : 0 < L -> esk_positioned esk ->
+  ipages (S (List.length ies)) L esk =
+  Some (map (eitem t) (filter (ematched ev) (filter (aft2b (q_forward q) (esk_pos esk)) ies))).
+Proof.
+  intros HL Hp. unfold ipages.
+  rewrite <- (gsplit_filter _ (aft2b_trans _) (esk_pos esk) ies ies_sorted).
+  apply (gpages_from (ecounts ev) ies (ematched ev) (eitem t) ilek ipage irest_for); auto.
+  - intros a x b Hes. right. left. exists a, x, b. auto.
+  - intros x Hin. now destruct (ilek_resolves x Hin).
+  - intros L0 esk0 rest HL0 Hr Hs. apply ipage_spec; auto.
+  - right. right. auto.
+  - exists (fst (gsplit (aft2b (q_forward q)) (esk_pos esk) ies)). symmetry. apply gsplit_app.
+  - pose proof (gsplit_app (aft2b (q_forward q)) (esk_pos esk) ies) as A.
+    rewrite <- A at 2. rewrite app_length. lia.
 Qed.
 
 (* the unpaginated read through the index returns the same list *)
